@@ -77,7 +77,46 @@ def theory_axioms(formulas):
     ax.extend(sum_axioms(formulas))
     from .cplx import cabs_axioms
     ax.extend(cabs_axioms(formulas))
+    ax.extend(chain_axioms(formulas))
     return ax
+
+
+def chain_axioms(formulas):
+    """defining equations of the paged result set (srv_chain / srv_urls, see contracts/dataclient.py), instantiated at the ground URLs that occur"""
+    apps = collect_apps(formulas, "srv_chain") + collect_apps(formulas, "srv_urls")
+    if not apps:
+        return []
+    from .weblib import SRV_ITEMS, SRV_HASNEXT, SRV_HREF, RefSeq, StrSeq
+    out, seen = [], set()
+    # prefix lemma of the sequence theory (the solver finds it only slowly): s[0:k+1] = s[0:k] ++ [s[k]] for 0 <= k < |s|
+    stack, vis = [f for f in formulas if isinstance(f, z3.ExprRef)], set()
+    while stack:
+        t = stack.pop()
+        if t.get_id() in vis:
+            continue
+        vis.add(t.get_id())
+        if z3.is_quantifier(t):
+            continue
+        if z3.is_app(t):
+            if t.decl().kind() == z3.Z3_OP_SEQ_EXTRACT and _is_ground(t) and z3.is_int_value(z3.simplify(t.arg(1))) and z3.simplify(t.arg(1)).as_long() == 0:
+                sq, k = t.arg(0), t.arg(2)
+                out.append(z3.Implies(z3.And(k >= 0, k < z3.Length(sq)), z3.Extract(sq, 0, k + 1) == z3.Concat(t, z3.Unit(sq[k]))))
+                out.append(z3.Implies(k == z3.Length(sq), t == sq))
+                out.append(z3.Implies(k == 0, z3.Length(t) == 0))
+            stack.extend(t.children())
+    for a in apps:
+        b, u = a.arg(0), a.arg(1)
+        key = (a.decl().name(), b.get_id(), u.get_id())
+        if key in seen or not (_is_ground(b) and _is_ground(u)):
+            continue
+        seen.add(key)
+        f = a.decl()
+        nxt = z3.Concat(b, SRV_HREF(u))
+        if a.decl().name() == "srv_chain":
+            out.append(a == z3.Concat(SRV_ITEMS(u), z3.If(SRV_HASNEXT(u), f(b, nxt), z3.Empty(RefSeq))))
+        else:
+            out.append(a == z3.Concat(z3.Unit(u), z3.If(SRV_HASNEXT(u), f(b, nxt), z3.Empty(StrSeq))))
+    return out
 
 
 def sum_axioms(formulas):
@@ -247,6 +286,9 @@ def binop(ex, st, op, a, b, node):
     # sequences / strings / lists first
     if isinstance(op, ast.Add) and isinstance(a, PyList) and isinstance(b, PyList):
         return _out(PyList(a.items + b.items), st)
+    from . import weblib
+    if isinstance(op, ast.Add) and (weblib.is_str(a) and weblib.is_str(b)) and not (isinstance(a, str) and isinstance(b, str)):
+        return _out(weblib.concat(a, b), st)
     if isinstance(op, ast.Add) and ty.is_z3(a) and a.sort() == ty.IdSort and isinstance(b, str):
         return _out(id_concat(ex, st, a, b, node), st)
     if isinstance(op, ast.Add) and isinstance(a, ty.OptV) and ty.is_z3(a.val) and a.val.sort() == ty.IdSort and isinstance(b, str):
@@ -426,6 +468,11 @@ def is_same(ex, st, a, b, node):
 def equals(ex, st, a, b, node):
     if a is None or b is None:
         return is_same(ex, st, a, b, node)
+    from . import weblib
+    if (ty.is_z3(a) and a.sort() == weblib.S) or (ty.is_z3(b) and b.sort() == weblib.S):
+        if weblib.is_str(a) and weblib.is_str(b):
+            return weblib.to_str(a) == weblib.to_str(b)
+        return False
     if isinstance(a, str) and isinstance(b, str):
         return a == b
     if isinstance(a, str) and ty.is_z3(b) and b.sort() == ty.IdSort:
@@ -476,6 +523,12 @@ def equals(ex, st, a, b, node):
 
 
 def contains(ex, st, cont, x, node):
+    from . import weblib
+    if isinstance(cont, weblib.ResponseV):
+        r = weblib.web_contains(ex, st, cont, x, node)
+        if r is not None:
+            return r
+        raise _U(f"`in` on an HTTP payload ({x!r})", node)
     if isinstance(cont, (PyList, PySet, list, tuple, frozenset, set)):
         items = cont.items if isinstance(cont, (PyList, PySet)) else list(cont)
         rs = [equals(ex, st, x, y, node) for y in items]
@@ -582,6 +635,12 @@ def array_binop(ex, st, op, a, b, node):
 
 def get_item(ex, st, cont, idx, node):
     from . import nplib as _np
+    from . import weblib
+    if isinstance(cont, weblib.ResponseV):
+        r = weblib.web_getitem(ex, st, cont, idx, node)
+        if r is not None:
+            return r
+        raise _U(f"subscript {idx!r} of an HTTP payload", node)
     if isinstance(cont, _np.MaskedV):
         cont = cont.to_seq(ex, st)
     if isinstance(cont, PyList) or isinstance(cont, (list, tuple)):
@@ -758,6 +817,13 @@ def value_attr(ex, st, v, attr, node):
         return _out({"Bool": "bool", "Int": "int64", "Real": "float64"}.get(repr(v.elem), "object"), st)
     if isinstance(v, str) and attr == "format":
         return _out(Intrinsic("str.format", str_format, recv=v), st)
+    if isinstance(v, str) and attr == "join":
+        return _out(Intrinsic("str.join", str_join, recv=v), st)
+    from . import weblib
+    if isinstance(v, weblib.ResponseV):
+        r = weblib.web_attr(ex, st, v, attr, node)
+        if r is not None:
+            return r
     if isinstance(v, (str, ty.OpaqueV)) and attr in ("format", "join", "split"):
         return _out(Intrinsic("str." + attr, lambda ex_, st_, recv, a, k, n: _out(ty.OpaqueV("str"), st_), recv=v), st)
     raise _U(f"attribute .{attr} of {v!r}", node)
@@ -766,7 +832,32 @@ def value_attr(ex, st, v, attr, node):
 _FMT = {}
 
 
+def str_join(ex, st, recv, args, kwargs, node):
+    from . import weblib
+    items = _items_of(ex, st, args[0], node)
+    if items is None or not all(weblib.is_str(x) for x in items):
+        return _out(ty.OpaqueV("str"), st)
+    if all(isinstance(x, str) for x in items):
+        return _out(recv.join(items), st)
+    parts = []
+    for k, x in enumerate(items):
+        if k:
+            parts.append(recv)
+        parts.append(x)
+    return _out(weblib.concat(*parts), st)
+
+
 def str_format(ex, st, recv, args, kwargs, node):
+    from . import weblib
+    args = list(args)
+    for k_, a_ in enumerate(args):
+        if isinstance(a_, ty.OptV) and ty.is_z3(a_.val) and a_.val.sort() == weblib.S:
+            ex.safety(st, "none-formatted-into-a-url", z3.Not(a_.isnone), node)     # "where=None" would be sent to the server
+            args[k_] = a_.val
+    if args and not kwargs and any(ty.is_z3(a) and a.sort() == weblib.S for a in args) or (args and isinstance(recv, str) and recv.endswith("={0}") and all(isinstance(a, int) or weblib.is_str(a) for a in args)):
+        if all(isinstance(a, (int, str)) and not ty.is_z3(a) for a in args):
+            return _out(recv.format(*args), st)
+        return _out(weblib.fmt(recv, args), st)
     """"<template>".format(n) with one integer argument: an identifier that is an injective function of n (one function per template);
     any other use yields an opaque string"""
     if len(args) == 1 and not kwargs and (isinstance(args[0], int) or (ty.is_z3(args[0]) and z3.is_int(args[0]))):
@@ -1504,6 +1595,7 @@ MODULE_FUNCS = {
     "copy.copy": m_copy,
     "math.ceil": m_math_ceil,
     "random.choice": m_random_choice,
+    "requests.get": lambda ex, st, a, k, n: __import__("pyvc.weblib", fromlist=["x"]).requests_get(ex, st, a, k, n),
     "copy.deepcopy": lambda ex, st, a, k, n: __import__("pyvc.copylib", fromlist=["x"]).m_deepcopy(ex, st, a, k, n),
     "pandas.DataFrame": lambda ex, st, a, k, n: __import__("pyvc.pdlib", fromlist=["x"]).dataframe(ex, st, a, k, n),
     "pandas.concat": lambda ex, st, a, k, n: __import__("pyvc.pdlib", fromlist=["x"]).concat(ex, st, a, k, n),
